@@ -26,7 +26,9 @@ RULE = ("every graph (symmetric irreflexive relation) on 0..5 (quick) / 0..6 (th
         "(thorough) positions into twin classes x every relation on the events incl. f(a, a); random ones with 1..3 repeats); "
         "a size class of lists of 129..300 events with sparse relations touching positions >= 128 and >= 256 (3 quick / 8 "
         "thorough); every non-empty set of events without geometry on lists of <= 4 positions (random otherwise); "
-        "the comparison function comes as plain function, lambda, partial, bound method, callable object and falsy callable "
+        "relations given as disjoint cliques, once per thorough run two cliques of 258 events (more than 2^16 similar pairs); "
+        "every non-empty set of events that are instances of a user subclass of SoundEvent on lists of <= 3 positions (random "
+        "otherwise); the comparison function comes as plain function, lambda, partial, bound method, callable object and falsy callable "
         "object (every guise for lists of <= 3 (quick) / <= 4 (thorough) positions, random otherwise), also looks at the "
         "geometry of its arguments when events lack one, and logs whether its arguments equal the input events; "
         "it answers as bool, numpy.bool_ or int (all three for every graph on <= 4 (quick) / <= 5 "
@@ -46,7 +48,15 @@ _RECS = [_REC, data.Recording(path="b.wav", duration=500.0, channels=2, samplera
          data.Recording(path="c.wav", duration=10.0, channels=1, samplerate=16000)]
 
 
-def _event(a, variant, geometry=True):
+class _StationEvent(data.SoundEvent):
+    """What a user of the library may write: a sound event that also knows on which station it was recorded."""
+    station: str = "unknown"
+
+
+def _event(a, variant, geometry=True, subclass=False):
+    if subclass:          # an instance of a user subclass, with a value in its own field: still an input sound event
+        base = _event(a, variant, geometry)
+        return _StationEvent(uuid=base.uuid, recording=base.recording, geometry=base.geometry, station=f"st{a}")
     if not geometry:      # SoundEvent(geometry=None): legal, and still an event the comparison function may link
         return data.SoundEvent(uuid=uuid.UUID(int=7000 + 100 * variant + a), recording=_RECS[a % 3] if variant == 0 else _REC,
                                geometry=None)
@@ -59,13 +69,13 @@ def _event(a, variant, geometry=True):
     return data.SoundEvent(uuid=uuid.UUID(int=7000 + 100 * variant + a), recording=rec, geometry=g)
 
 
-def _events(ids, variant, ng=()):
+def _events(ids, variant, ng=(), sub=()):
     """One event per identifier (those in ng without a geometry).  Twin positions hold the very same object (variant 0)
     or separately built equal objects with the same uuid (variant 1)."""
     if variant == 0:
         made = {}
-        return [made.setdefault(a, _event(a, 0, a not in ng)) for a in ids]
-    return [_event(a, 1, a not in ng) for a in ids]
+        return [made.setdefault(a, _event(a, 0, a not in ng, a in sub)) for a in ids]
+    return [_event(a, 1, a not in ng, a in sub) for a in ids]
 
 
 _RET = {"bool": bool, "np_bool": np.bool_, "int": int}
@@ -118,7 +128,14 @@ def _guise(name, fn):
 def _run(case, variant):
     ids = case["id"]
     rel = {(a, b) for a, b in case["e"]} | {(b, a) for a, b in case["e"]}       # on identifiers, incl. (a, a) for twins
-    events = _events(ids, variant, set(case.get("ng", [])))
+    block = {}                                   # relation given as disjoint cliques over the positions: same clique = similar
+    if case.get("cl"):
+        pos = 0
+        for b, size in enumerate(case["cl"]):
+            for _ in range(size):
+                pos += 1
+                block[pos] = b
+    events = _events(ids, variant, set(case.get("ng", [])), set(case.get("sub", [])))
     ident = {ev.uuid: a for ev, a in zip(events, ids)}
     calls = []
 
@@ -131,6 +148,7 @@ def _run(case, variant):
     for ev, a in zip(events, ids):
         by_id.setdefault(a, ev)
     gd = case.get("gd", False)
+    input_objects = {id(e) for e in events}
     identity = []                                 # per call: are the arguments the very input objects? (recorded, not judged)
 
     def compare(se1, se2):
@@ -139,12 +157,14 @@ def _run(case, variant):
         fa = int(a != 0 and bool(se1 == by_id[a]))
         fb = int(b != 0 and bool(se2 == by_id[b]))
         calls.append([a, b, fa, fb])
-        identity.append([any(se1 is e for e in events), any(se2 is e for e in events)])
+        if len(identity) < 2000:      # recorded for the reader, not judged; capped on very long lists
+            identity.append([id(se1) in input_objects, id(se2) in input_objects])
         looks = True
         if gd:      # a function that also looks at its arguments: geometry present / absent as the input event has it
             looks = all(x is not None and y is not None and (x.geometry is None) == (y.geometry is None)
                         for x, y in ((se1, by_id.get(a)), (se2, by_id.get(b))))
-        return answer(((a, b) in rel) and looks)
+        similar = (block[a] == block[b]) if block else ((a, b) in rel)
+        return answer(bool(similar) and looks)
 
     comparison_fn = _guise(case.get("guise", "function"), compare)
     try:
@@ -155,28 +175,36 @@ def _run(case, variant):
     for s in result:
         if not isinstance(s, data.Sequence):
             raise TypeError(f"group_sound_events returned a {type(s).__name__}")
-        seqs.append([identifier(x) for x in s.sound_events])
+        # a member counts as the input event a only if it equals it, class included (0 = not one of the input events)
+        seqs.append([a if (a and type(x) is type(by_id[a]) and bool(x == by_id[a])) else 0
+                     for x, a in ((x, identifier(x)) for x in s.sound_events)])
     return {"raised": "", "seqs": seqs, "calls": calls, "ident": identity}
 
 
 def execute(case):
+    if case.get("cl") and case["n"] > 100:       # hundreds of densely similar events: one run (O(n^2) logged calls)
+        return {"runs": [_run(case, 0)]}
     return {"runs": [_run(case, 0), _run(case, 1)]}
 
 
 _GUISES = ["function", "lambda", "partial", "method", "object", "falsy_len", "falsy_bool"]
 
 
-def _graph(n, edges, ids=None, loops=(), ret="bool", ng=(), gd=False, guise="function"):
+def _graph(n, edges, ids=None, loops=(), ret="bool", ng=(), gd=False, guise="function", sub=()):
     """edges / loops are on identifiers; without ids every position holds its own event."""
     es = sorted({(min(a, b), max(a, b)) for a, b in edges if a != b} | {(a, a) for a in loops})
     return {"n": n, "id": list(ids) if ids else list(range(1, n + 1)), "e": [list(e) for e in es], "ret": ret,
-            "ng": sorted(ng), "gd": bool(gd), "guise": guise}
+            "ng": sorted(ng), "gd": bool(gd), "guise": guise, "sub": sorted(sub), "cl": []}
 
 
 def random_cases(rng, tier):
     """Graphs on 7..12 events (a third of them with 1..3 events repeated in the list) -- larger than TLC enumerates;
     judged by the same TLA+ clauses."""
     yield from _large_cases(rng, tier)
+    for sizes in ([3, 2, 4], [1, 5, 1, 2]):                      # relations given as disjoint cliques
+        yield dict(_graph(sum(sizes), []), cl=sizes)
+    if tier == "thorough":        # more than 2**16 similar pairs: two all-similar groups of 258 events (66 306 pairs)
+        yield dict(_graph(516, []), cl=[258, 258])
     count = 300 if tier == "quick" else 3000
     for k in range(count):
         n = rng.randrange(7, 13)
@@ -217,7 +245,8 @@ def random_cases(rng, tier):
         else:
             ng = rng.sample(range(1, n + 1), rng.choice([0, 1, 1, 2, 3])) if k % 3 == 1 else []     # events without geometry
             yield _graph(n, e, ret=rng.choice(["bool", "np_bool", "int"]), ng=ng, gd=bool(ng) and rng.random() < 0.7,
-                         guise=rng.choice(_GUISES))
+                         guise=rng.choice(_GUISES),
+                         sub=rng.sample(range(1, n + 1), rng.choice([0, 0, 1, 2, 3])))
 
 
 def _large_cases(rng, tier):
@@ -257,7 +286,7 @@ MANIFEST = {
              "(quick) / <= 6 nodes (thorough, 33 868 graphs); every graph is then run on the real function with a logging "
              "table-lookup comparison function answering as bool / numpy.bool_ / int, handed over in seven guises (incl. falsy callable objects), logging whether its "
              "arguments equal the input events, with events that have no geometry, twice (distinct / identical-up-to-uuid events), plus random graphs on 7-12 "
-             "nodes and a size class of 129-300 events, and TLC validates sequences and call log clause by clause."),
+             "nodes a size class of 129-300 events, events of a user subclass, and (thorough) two cliques of 258 events, and TLC validates sequences and call log clause by clause."),
     "note": ("trusted: TLC, binder checks/c13.py (encoder: positions by uuid); exhaustive up to 6 nodes, sampled 7-12; the "
              "input list is assumed to hold distinct events and the comparison function to be symmetric (quantifier of the statement)"),
     "design_ref": "DESIGN.md section 4 C13",
